@@ -56,6 +56,13 @@ def main():
         return 1
     # verdict of our checks on a scratch copy of /repo's current tree
     p = subprocess.run(["/venv/bin/python", os.path.join(HERE, "tools", "mutate.py"), prop, "--patch", diff], capture_output=True, text=True, cwd=HERE)
+    rebased = diff.replace(".diff", ".rebased.diff")
+    if "PATCH FAILED" in p.stdout and os.path.exists(rebased):
+        # the agent's worktree predates later fix: commits; an equivalent patch against the current tree is used for the check
+        p = subprocess.run(["/venv/bin/python", os.path.join(HERE, "tools", "mutate.py"), prop, "--patch", rebased], capture_output=True, text=True, cwd=HERE)
+        shutil.copy(rebased, os.path.join(HERE, "seeded", sid, "patch.rebased.diff")) if os.path.isdir(os.path.join(HERE, "seeded", sid)) else None
+        os.makedirs(os.path.join(HERE, "seeded", sid), exist_ok=True)
+        shutil.copy(rebased, os.path.join(HERE, "seeded", sid, "patch.rebased.diff"))
     verdict_lines = [l for l in p.stdout.splitlines() if l.startswith(("  C", "VIOLATION", "ANALYSIS", "C")) and "replay=" not in l]
     detected = "VIOLATION" in p.stdout
     d = os.path.join(HERE, "seeded", sid)
